@@ -1,8 +1,10 @@
 mod c02;
+mod c03;
 mod c05;
+mod fault;
 mod core;
 mod sess;
-pub use wowsim_glue::{alloc, model, pipe, rng, umask, world, wowm};
+pub use wowsim_glue::{alloc, login, model, pipe, rng, umask, world, wowm};
 
 #[global_allocator]
 static GLOBAL: alloc::Counting = alloc::Counting;
@@ -118,6 +120,7 @@ fn make_check(id: &str) -> Box<dyn core::Check> {
             c02::register_opcodes(&c.ctx);
             Box::new(c)
         }
+        "C03" => Box::new(c03::C03::new()),
         "C05" => {
             let c = c05::C05::new();
             c02::register_opcodes(&c.ctx);
